@@ -38,3 +38,19 @@ package concurrent
 // registration of the builtins: needs a valid environment
 //@ func Load(env) ()
 //@   requires validEnvVal(env)
+
+// ---- futures (C10) -------------------------------------------------------------------
+// the goroutine started by NewFuture: the body is applied exactly once and exactly one
+// outcome is deposited (ghost counters of calls to Apply and of channel sends)
+//@ func NewFuture$1() ()
+//@   ensures ghost(applied) == old(ghost(applied)) + 1 && ghost(sent) == old(ghost(sent)) + 1
+
+// deref puts back what it received (chan/redeposit obligations) and returns it;
+// future-cancel: no effect on a finished future, otherwise both flags are set
+// the stored context.CancelFunc cannot reach the future
+//@ field concurrent.Future.CancelFunc() ()
+//@   assigns nothing
+
+//@ func (*Future).Cancel(f) (r)
+//@   ensures implies(old(f.Done), r == old(f.Cancelled) && f.Done && f.Cancelled == old(f.Cancelled))
+//@   ensures implies(!old(f.Done), r && f.Done && f.Cancelled)
